@@ -507,6 +507,15 @@ class Runner:
             if k == "set_fn":
                 def call():
                     tr[name] = f
+            elif self.counter % 2:
+                # the documented short form: the name is the algorithm's own __name__ (a feature of that name may
+                # exist already, written by hand, by another function of the same name, or by this very call before)
+                f.__name__ = tr._n(name) if hasattr(tr, "_n") else name
+                call = lambda: tr.addAnalyticalFeature(f)
+                expect_return = list(want)
+                self.ctx.cls("algorithm_named_by_its_own_name")
+                if name in model:
+                    self.ctx.cls("algorithm_named_by_its_own_name.over_an_existing_name")
             else:
                 call = lambda: tr.addAnalyticalFeature(f, name)
                 expect_return = list(want)
@@ -1052,7 +1061,8 @@ _FLOORS_EXTRA = {'monitors': {'decoy.unchanged': 50000, 'failed_expression.state
                               'anyop.returned_list_is_what_is_read': 3000,
                               'scale.table_consistent': 100},
                  'classes': {'shift_by_whole_turns': 500, 'expression_through_item_access': 2000, 'sibling_track': 1000,
-                             'less_usual_feature_names': 5000, 'zero_valued_write': 5000, 'algorithm.undefined_at_an_observation.over_an_existing_name': 800, 'expression_of_more_than_100_operations': 6}}
+                             'less_usual_feature_names': 5000, 'zero_valued_write': 5000, 'algorithm.undefined_at_an_observation.over_an_existing_name': 800,
+                             'algorithm_named_by_its_own_name.over_an_existing_name': 500, 'expression_of_more_than_100_operations': 6}}
 
 
 def floors(tier):
